@@ -297,7 +297,43 @@ def summarise_loop(ip, st, fr, H):
 
 def summarise_call_loop(ip, st, fr, N, runner):
     """a loop expressed as a call per element (Iterator::for_each): runner(state, index) -> states."""
-    return _summarise_core(ip, st, fr, None, lin(N), T.fresh("$i"), {}, None, None, runner, True)
+    N = lin(N)
+    try:
+        return _summarise_core(ip, st, fr, None, N, T.fresh("$i"), {}, None, None, runner, True)
+    except PeelFirst:
+        pass
+    # peel: element 0 on its own, then the rest with the index shifted by one
+    results = []
+    for s0, nonempty in prims.fork_on(st, ("ge", N - 1)):
+        if not nonempty:
+            results.append(s0)
+            continue
+        for s1 in runner(s0, ZERO):
+            try:
+                results.extend(_summarise_core(ip, s1, fr, None, N - 1, T.fresh("$i"), {}, None, None,
+                                               lambda s, idx: runner(s, lin(idx) + 1), True))
+            except PeelFirst as e:
+                raise Undecided(str(e))
+    return results
+
+
+def _slice_elem_size(ip, fr, loc):
+    """element size (an int > 1) when loc is a local of this frame declared `&[T]` / `&mut [T]` with a
+    multi-byte T; else 1.  Offsets and lengths of such a slice variable are multiples of it."""
+    cell, fpath = loc
+    if fpath or cell[0] != "L" or len(cell) < 3 or cell[1] != fr.id:
+        return 1
+    try:
+        t = fr.crate.types[fr.body["locals"][cell[2]]["ty"]]
+        if t["k"] != "ref":
+            return 1
+        inner = fr.crate.types[t["inner"]]
+        if inner["k"] != "slice":
+            return 1
+        e = ip.sizeof(fr.crate, inner["inner"])
+    except (IndexError, KeyError, TypeError, Undecided):
+        return 1
+    return e.c if e.is_const() and e.c > 1 else 1
 
 
 def _sized_ref_local(fr, loc):
@@ -331,6 +367,7 @@ def _discover_affine(ip, st, fr, H, N, var, region, cont, runner):
                     W.append((cell, fpath))
     ph = {}
     syms = {}
+    coef = {}
     iters = {}
     refseq = {}
     for loc in W:
@@ -338,7 +375,7 @@ def _discover_affine(ip, st, fr, H, N, var, region, cont, runner):
             pv = ranged_ref(ip, st, ip.load(st, Target(loc[0], loc[1]), log=False))
         except Undecided:
             continue
-        if pv[0] == "ref" and _sized_ref_local(fr, loc):
+        if pv[0] == "ref" and pv[1].path and pv[1].path[-1][0] == "br":
             # a reference to a fixed-size block that the body re-points (`prev = ct`): if what it is
             # left pointing at is a function g(v) of the index alone, its value at the start of
             # iteration v is g(v-1) -- provided the pre-loop value is g(-1), else peel iteration 0
@@ -349,7 +386,8 @@ def _discover_affine(ip, st, fr, H, N, var, region, cont, runner):
                 except Undecided:
                     vals.append(None)
             gA = vals[0] if vals and all(x is not None and veq(x, vals[0], s1.F) for x in vals) else None
-            if gA is not None and gA[0] == "ref" and gA[1].path and gA[1].path[-1][0] == "br" and not veq(gA, pv, st.F):
+            if gA is not None and gA[0] == "ref" and gA[1].path and gA[1].path[-1][0] == "br" and not veq(gA, pv, st.F) \
+                    and (_sized_ref_local(fr, loc) or st.F.prove_eq(gA[1].path[-1][2] - pv[1].path[-1][2])):
                 names_ = value_names(gA)
                 if var in names_ and not any(nm.startswith("$") and nm != var for nm in names_):
                     if veq(vsub(gA, {}, {var: lin(-1)}, st.F), pv, st.F):
@@ -364,7 +402,10 @@ def _discover_affine(ip, st, fr, H, N, var, region, cont, runner):
         elif pv[0] == "ref" and pv[1].path and pv[1].path[-1][0] == "br":
             n1, n2 = T.fresh("$a"), T.fresh("$a")
             tg = pv[1]
-            ph[loc] = ("ref", Target(tg.cell, tg.path[:-1] + (("br", Lin.sym(n1), Lin.sym(n2)),)))
+            e_ = _slice_elem_size(ip, fr, loc)
+            if e_ > 1:
+                coef[n1] = coef[n2] = e_      # placeholders count ELEMENTS of a multi-byte slice
+            ph[loc] = ("ref", Target(tg.cell, tg.path[:-1] + (("br", Lin.sym(n1) * e_, Lin.sym(n2) * e_),)))
             syms[n1] = (loc, 1, tg.path[-1][1])
             syms[n2] = (loc, 2, tg.path[-1][2])
         elif pv[0] == "iter" and pv[1] != "ref":
@@ -431,7 +472,7 @@ def _discover_affine(ip, st, fr, H, N, var, region, cont, runner):
                 vals.add(nv[1] - Lin.sym(nm) if nv[0] == "size" else None)
             else:
                 ok = nv[0] == "ref" and nv[1].path and nv[1].path[-1][0] == "br"
-                vals.add(nv[1].path[-1][which] - Lin.sym(nm) if ok else None)
+                vals.add(nv[1].path[-1][which] - Lin.sym(nm) * coef.get(nm, 1) if ok else None)
         if len(vals) != 1:
             continue
         step = vals.pop()
@@ -862,6 +903,7 @@ def while_trip_count(ip, st, fr, H, var, region):
                     W.append((cell, fpath))
     ph = {}
     syms = {}
+    coef = {}
     for loc in W:
         try:
             pv = ranged_ref(ip, st, ip.load(st, Target(loc[0], loc[1]), log=False))
@@ -874,7 +916,10 @@ def while_trip_count(ip, st, fr, H, var, region):
         elif pv[0] == "ref" and pv[1].path and pv[1].path[-1][0] == "br":
             n1, n2 = T.fresh("$a"), T.fresh("$a")
             tg = pv[1]
-            ph[loc] = ("ref", Target(tg.cell, tg.path[:-1] + (("br", Lin.sym(n1), Lin.sym(n2)),)))
+            e_ = _slice_elem_size(ip, fr, loc)
+            if e_ > 1:
+                coef[n1] = coef[n2] = e_      # placeholders count ELEMENTS of a multi-byte slice
+            ph[loc] = ("ref", Target(tg.cell, tg.path[:-1] + (("br", Lin.sym(n1) * e_, Lin.sym(n2) * e_),)))
             syms[n1] = (loc, 1, tg.path[-1][1])
             syms[n2] = (loc, 2, tg.path[-1][2])
     sB = st.fork()
@@ -937,7 +982,7 @@ def while_trip_count(ip, st, fr, H, var, region):
             else:
                 if nv[0] != "ref" or not nv[1].path or nv[1].path[-1][0] != "br":
                     raise Undecided("slice variable lost its range")
-                stepk = nv[1].path[-1][which] - Lin.sym(nm)
+                stepk = nv[1].path[-1][which] - Lin.sym(nm) * coef.get(nm, 1)
             if step is not None and stepk != step:
                 # advances differently on different ways around the loop: not affine
                 step = Lin.sym(nm) * 0 + Lin.sym(var)
@@ -947,7 +992,15 @@ def while_trip_count(ip, st, fr, H, var, region):
             if nm in G.symbols():
                 raise Undecided("loop condition depends on %r which does not advance by a constant stride" % (loc,))
             continue
-        env[nm] = orig + step * v
+        if coef.get(nm, 1) != 1:
+            q_ = (orig + step * v).div_sym(coef[nm])
+            if q_ is None:
+                if nm in G.symbols():
+                    raise Undecided("slice variable %r is not a whole number of elements" % (loc,))
+                continue
+            env[nm] = q_
+        else:
+            env[nm] = orig + step * v
         steps[(loc, which)] = (orig, step)
     if set(G.symbols()) & (set(syms) - set(env)):
         raise Undecided("loop condition mentions a non-affine variable")
